@@ -268,7 +268,9 @@ def write_evidence(mod, pid, tier, seed, results, violations, known_hits, errors
         "functions_encoded": sorted(encoded.values(), key=lambda f: str(f.get("function"))),
         "samples": samples,
         "sample_vc_smt2": vc_sample,
+        "cvc5_queries": sum(r.get("cvc5_queries", 0) or 0 for r in results),
         "trusted_base": ["CrossHair 0.0.110 opcode-level symbolic execution", "z3 " + _z3ver(),
+                         "cvc5 binary on PATH (second opinion for verification conditions z3 answers `unknown`; its `unsat` is accepted, its models are replayed like z3's)",
                          "environment models listed under assumptions"],
         "checker_cmd": f"./verif check {pid} --tier {tier}",
         "exhaustive": False,
